@@ -96,10 +96,20 @@ def inverse_map_law(ctx, step, doc, inv, newdoc, bad):
     return True
 
 
-def history(ctx, rnd):
+MARK_KINDS = ["add_mark", "add_mark", "add_mark", "remove_mark", "remove_mark", "add_node_mark", "remove_node_mark", "delete", "insert", "split",
+              "set_block_type", "replace"]
+
+
+def history(ctx, rnd, marky=False):
     from prosemirror.transform import Step, Transform
 
-    st = opwork.setup_history(ctx, rnd, ids=list(schemas.TOTALITY), random_share=0.0, nslices=4, wide=0.1)
+    if marky:
+        # densely marked documents (adjacent inline nodes with same-type marks of different
+        # attrs), operations dominated by mark changes over wide ranges
+        st = opwork.setup_history(ctx, rnd, ids=list(schemas.TOTALITY), random_share=0.0, nslices=3, wide=0.05, mark_p=0.65,
+                                  budget=rnd.choice([24, 36, 50]))
+    else:
+        st = opwork.setup_history(ctx, rnd, ids=list(schemas.TOTALITY), random_share=0.0, nslices=4, wide=0.1)
     if st is None:
         return
     sch, g, d, p, slices = st
@@ -119,7 +129,7 @@ def history(ctx, rnd):
         if rs.why_invalid(flat.pt(tr.doc)) is not None:
             ctx.count("history_dropped_invalid_intermediate")
             return
-        op = genops.gen_op(sch, rnd, g, tr.doc, slices)
+        op = genops.gen_op(sch, rnd, g, tr.doc, slices, MARK_KINDS if marky else None)
         out, exc = opwork.run_op(tr, op, tr.doc.content.size, 40)
         log.append({**op.describe(), "outcome": out, "exc": repr(exc)[:120] if exc else None})
         ctx.count("history_ops")
@@ -281,7 +291,10 @@ def single(ctx, rnd):
 
 
 def case(ctx, rnd, i):
-    if i % 3 == 2:
+    if i % 4 == 2:
         single(ctx, rnd)
+    elif i % 4 == 3:
+        ctx.count("mark_heavy_histories")
+        history(ctx, rnd, marky=True)
     else:
         history(ctx, rnd)
